@@ -128,7 +128,9 @@ def DATEDIF(start_date, end_date, unit):
         if unit == 'm':
             return (end_date.year - start_date.year) * 12 + end_date.month - start_date.month - (1 if end_date.day < start_date.day else 0)
         if unit == 'd':
-            return int(utils.serialize_date(end_date) - utils.serialize_date(start_date))
+            # whole milliseconds first: the difference of two serials carries float noise,
+            # and int() would turn 20483.999999999996 into 20483
+            return int(round((utils.serialize_date(end_date) - utils.serialize_date(start_date)) * 86400000) // 86400000)
         if unit == 'md':
             start_day = start_date.day
             end_day = end_date.day
